@@ -232,6 +232,9 @@ func evaluate(c Case, cat string) *Finding {
 		ev.Label("finding:" + id + " [" + f.Msg + "]")
 		if ev.Known(id) {
 			ev.Excluded(id)
+			if os.Getenv("C09_STACK") != "" { // triage aid
+				fmt.Fprintf(os.Stderr, "excluded by known finding %s: %s\n", id, f)
+			}
 			return nil
 		}
 		return f
